@@ -521,3 +521,387 @@ Lemma instance_walk :
   strings (walk w_tree) = [s_id; [118]; s_sources; s_source;
     [114;116;115;112;58;47;47;42;42;42;42;64;99;97;109;47;120]].
 Proof. vm_compute. reflexivity. Qed.
+
+(* ---- secrecy after a blank: whatever text precedes ---------------------------------------- *)
+(* A credential URI that starts the text or follows a whitespace character is hidden whatever
+   comes before it (other URIs with or without credentials, half matches, ...): the output does
+   not depend on user and password.  This is the comma/blank-separated list form
+   "uri, uri, uri" of sources/outputs before normalisation. *)
+
+Lemma space_cases c : is_space c = true ->
+  c = 9 \/ c = 10 \/ c = 11 \/ c = 12 \/ c = 13 \/ c = 28 \/ c = 29 \/ c = 30 \/ c = 31 \/ c = 32 \/
+  c = 133 \/ c = 160 \/ c = 5760 \/ c = 8192 \/ c = 8193 \/ c = 8194 \/ c = 8195 \/ c = 8196 \/
+  c = 8197 \/ c = 8198 \/ c = 8199 \/ c = 8200 \/ c = 8201 \/ c = 8202 \/ c = 8232 \/ c = 8233 \/
+  c = 8239 \/ c = 8287 \/ c = 12288.
+Proof.
+  unfold is_space. rewrite !orb_true_iff, !andb_true_iff, !Z.leb_le, !Z.eqb_eq. lia.
+Qed.
+
+Ltac space_enum H :=
+  apply space_cases in H;
+  repeat (destruct H as [H|H]; [subst; vm_compute; reflexivity|]); subst; vm_compute; reflexivity.
+
+Lemma space_not_word c : is_space c = true -> is_word c = false.
+Proof. intro H. space_enum H. Qed.
+Lemma space_not_schemec c : is_space c = true -> is_schemec c = false.
+Proof. intro H. space_enum H. Qed.
+Lemma space_not_alpha c : is_space c = true -> is_alpha c = false.
+Proof. intro H. space_enum H. Qed.
+Lemma space_not_hostc c : is_space c = true -> is_hostc c = false.
+Proof. intro H. unfold is_hostc. rewrite H. reflexivity. Qed.
+Lemma space_not_lit c : is_space c = true -> c <> 58 /\ c <> 47 /\ c <> 64.
+Proof. intro H. apply space_cases in H. lia. Qed.
+
+Lemma alpha_schemec c : is_alpha c = true -> is_schemec c = true.
+Proof. intro H. unfold is_schemec. rewrite H. reflexivity. Qed.
+Lemma schemec_not_colon_at c : is_schemec c = true -> not_colon_at c = true.
+Proof.
+  unfold is_schemec, is_alpha, is_digit, in_range, not_colon_at.
+  rewrite !orb_true_iff, !andb_true_iff, !Z.leb_le, !Z.eqb_eq. intro H.
+  assert (E1 : (c =? 58) = false) by (apply Z.eqb_neq; lia).
+  assert (E2 : (c =? 64) = false) by (apply Z.eqb_neq; lia).
+  rewrite E1, E2. reflexivity.
+Qed.
+Lemma not_colon_at_not_at c : not_colon_at c = true -> not_at c = true.
+Proof. unfold not_colon_at, not_at. destruct (c =? 64); [rewrite orb_true_r; discriminate|reflexivity]. Qed.
+Lemma forallb_impl (p q : Z -> bool) l : (forall c, p c = true -> q c = true) -> forallb p l = true -> forallb q l = true.
+Proof. intros H. rewrite !forallb_forall. auto. Qed.
+
+(* the stages of match_at *)
+Definition stage_host (ku : bool) (sch usr r6 : str) : option (str * str * str) :=
+  let (host, r7) := span is_hostc r6 in
+  match host with
+  | [] => None
+  | _ :: _ => Some (sch ++ s_sep ++ (if ku then usr ++ [58] else []), 64 :: host, r7)
+  end.
+Definition stage_pwd (ku : bool) (sch usr r4 : str) : option (str * str * str) :=
+  let (pw, r5) := span not_at r4 in
+  match strip_prefix [64] r5 with Some r6 => stage_host ku sch usr r6 | None => None end.
+Definition stage_user (ku : bool) (sch r2 : str) : option (str * str * str) :=
+  let (usr, r3) := span not_colon_at r2 in
+  match usr with
+  | [] => None
+  | _ :: _ => match strip_prefix [58] r3 with Some r4 => stage_pwd ku sch usr r4 | None => None end
+  end.
+Definition stage_sep (ku : bool) (sch r1 : str) : option (str * str * str) :=
+  match strip_prefix s_sep r1 with Some r2 => stage_user ku sch r2 | None => None end.
+
+Lemma match_at_stages ku c s :
+  is_alpha c = true ->
+  match_at ku (c :: s) = stage_sep ku (c :: fst (span is_schemec s)) (snd (span is_schemec s)).
+Proof.
+  intro H. unfold match_at. rewrite H. cbn [span]. rewrite (alpha_schemec c H).
+  destruct (span is_schemec s) as [u v]. cbn [fst snd].
+  unfold stage_sep, stage_user, stage_pwd, stage_host.
+  destruct (strip_prefix s_sep v) as [r2|]; [|reflexivity].
+  destruct (span not_colon_at r2) as [usr r3]. destruct usr as [|u0 usr]; [reflexivity|].
+  destruct (strip_prefix [58] r3) as [r4|]; [|reflexivity].
+  destruct (span not_at r4) as [pw r5].
+  destruct (strip_prefix [64] r5) as [r6|]; [|reflexivity].
+  destruct (span is_hostc r6) as [host r7]. reflexivity.
+Qed.
+
+(* a non-empty text that ends with a whitespace character *)
+Definition tail_ws (x : str) : Prop := x <> [] /\ is_space (last x 0) = true.
+Definition suffix (a x : str) : Prop := exists m, a = m ++ x.
+
+Lemma last_app_ne (u x : str) d : x <> [] -> last (u ++ x) d = last x d.
+Proof.
+  intro H. induction u as [|a u IH]; [reflexivity|].
+  cbn [app]. destruct (u ++ x) eqn:E; [destruct u; [cbn in E; congruence|discriminate]|].
+  rewrite <- E in *. change (last (a :: u ++ x) d) with (match u ++ x with [] => a | _ :: _ => last (u ++ x) d end).
+  rewrite E. rewrite <- E. exact IH.
+Qed.
+Lemma last_indep (x : str) d d' : x <> [] -> last x d = last x d'.
+Proof.
+  induction x as [|a x IH]; [congruence|]. intros _. destruct x as [|b x]; [reflexivity|].
+  change (last (a :: b :: x) d) with (last (b :: x) d). change (last (a :: b :: x) d') with (last (b :: x) d').
+  apply IH. discriminate.
+Qed.
+
+Lemma forallb_last_false (p : Z -> bool) x : x <> [] -> p (last x 0) = false -> forallb p x = false.
+Proof.
+  induction x as [|a x IH]; [congruence|]. intros _ H. cbn [forallb].
+  destruct x as [|b x]; [cbn in H; rewrite H; reflexivity|].
+  change (last (a :: b :: x) 0) with (last (b :: x) 0) in H.
+  rewrite IH; [apply andb_false_r|discriminate|exact H].
+Qed.
+
+Lemma span_snd_head p x z0 z : snd (span p x) = z0 :: z -> p z0 = false.
+Proof.
+  induction x as [|a x IH]; cbn [span]; [discriminate|].
+  destruct (p a) eqn:E.
+  - destruct (span p x) as [u v]. cbn [snd] in *. exact IH.
+  - cbn [snd]. intro H. inversion H; subst. exact E.
+Qed.
+
+Lemma tail_ws_span p a x : suffix a x -> tail_ws x -> forallb p x = false ->
+  suffix a (snd (span p x)) /\ tail_ws (snd (span p x)).
+Proof.
+  intros [m Hm] [Hne Hl] Hf. destruct (span_app_stop p x [] Hf) as [_ N].
+  pose proof (span_eq p x) as E. split.
+  - exists (m ++ fst (span p x)). rewrite <- app_assoc, <- E. exact Hm.
+  - split; [exact N|]. rewrite E in Hl. rewrite last_app_ne in Hl by exact N. exact Hl.
+Qed.
+
+Lemma tail_ws_strip lit a x y :
+  (forall c, In c lit -> is_space c = false) ->
+  suffix a x -> tail_ws x -> strip_prefix lit x = Some y -> suffix a y /\ tail_ws y.
+Proof.
+  intros Hlit [m Hm] [Hne Hl] Hs. apply strip_prefix_eq in Hs. subst x.
+  assert (N : y <> []).
+  { intro; subst y. rewrite app_nil_r in *. destruct lit as [|l0 lit]; [congruence|].
+    assert (In (last (l0 :: lit) 0) (l0 :: lit)).
+    { clear. revert l0; induction lit as [|b lit IH]; intro l0; [left; reflexivity|].
+      change (last (l0 :: b :: lit) 0) with (last (b :: lit) 0). right. apply IH. }
+    apply Hlit in H. congruence. }
+  split.
+  - exists (m ++ lit). rewrite <- app_assoc. exact Hm.
+  - split; [exact N|]. rewrite last_app_ne in Hl by exact N. exact Hl.
+Qed.
+
+Lemma lit_sep_nospace c : In c s_sep -> is_space c = false.
+Proof. unfold s_sep. cbn [In]. intros [<-|[<-|[<-|[]]]]; reflexivity. Qed.
+Lemma lit_colon_nospace c : In c [58] -> is_space c = false.
+Proof. cbn [In]. intros [<-|[]]; reflexivity. Qed.
+Lemma lit_at_nospace c : In c [64] -> is_space c = false.
+Proof. cbn [In]. intros [<-|[]]; reflexivity. Qed.
+
+Lemma strip_prefix_app_l lit x y t : strip_prefix lit x = Some y -> strip_prefix lit (x ++ t) = Some (y ++ t).
+Proof. intro H. apply strip_prefix_eq in H. subst x. rewrite <- app_assoc. apply strip_prefix_app. Qed.
+
+(* what a match attempt started inside the preceding text can be, independently of user and password *)
+Inductive mres :=
+| MNone
+| MWithin (g1 g2 r : str)      (* the match ends inside the preceding text; r = what is left of it *)
+| MSpan (g1 g2 : str).         (* the match runs over the credential and ends after its host *)
+Definition interp (m : mres) (T rest : str) : option (str * str * str) :=
+  match m with
+  | MNone => None
+  | MWithin g1 g2 r => Some (g1, g2, r ++ T)
+  | MSpan g1 g2 => Some (g1, g2, rest)
+  end.
+Definition mres_ok (a : str) (m : mres) : Prop :=
+  match m with MWithin _ _ r => suffix a r | _ => True end.
+
+Section After.
+  Variables (a sch scheme host rest : str).
+  Hypothesis Hscheme : scheme_ok scheme.
+  Hypothesis Hhost : host <> [] /\ forallb is_hostc host = true /\ stops is_hostc rest.
+
+  Definition valid (user pwd : str) : Prop :=
+    user <> [] /\ forallb not_colon_at user = true /\ forallb not_at pwd = true.
+
+  Lemma host_stage usr v :
+    suffix a v -> tail_ws v ->
+    exists m, mres_ok a m /\ forall T, stage_host false sch usr (v ++ T) = interp m T rest.
+  Proof.
+    intros Hs Ht.
+    assert (Hf : forallb is_hostc v = false)
+      by (apply forallb_last_false; [apply Ht|apply space_not_hostc, Ht]).
+    destruct (tail_ws_span is_hostc a v Hs Ht Hf) as [Hs' _].
+    destruct (fst (span is_hostc v)) as [|h0 h] eqn:Eh.
+    - exists MNone. split; [exact I|]. intro T. unfold stage_host.
+      destruct (span_app_stop is_hostc v T Hf) as [E _]. rewrite E, Eh. reflexivity.
+    - exists (MWithin (sch ++ s_sep ++ []) (64 :: h0 :: h) (snd (span is_hostc v))). split; [exact Hs'|].
+      intro T. unfold stage_host.
+      destruct (span_app_stop is_hostc v T Hf) as [E _]. rewrite E, Eh. reflexivity.
+  Qed.
+
+  Lemma cred_host_stage usr :
+    stage_host false sch usr (host ++ rest) = Some (sch ++ s_sep ++ [], 64 :: host, rest).
+  Proof.
+    destruct Hhost as (Hn & Hf & Hr). unfold stage_host. rewrite (span_app is_hostc host rest Hf Hr).
+    destruct host; [congruence|reflexivity].
+  Qed.
+
+  Lemma pwd_stage usr w :
+    suffix a w -> tail_ws w ->
+    exists m, mres_ok a m /\ forall user pwd, valid user pwd ->
+      stage_pwd false sch usr (w ++ cred scheme user pwd host rest) = interp m (cred scheme user pwd host rest) rest.
+  Proof.
+    intros Hs Ht. destruct (forallb not_at w) eqn:Hf.
+    - (* no '@' left in the preceding text: the password run extends to the credential's '@' *)
+      exists (MSpan (sch ++ s_sep ++ []) (64 :: host)). split; [exact I|].
+      intros user pwd (Hu & Hu' & Hp). unfold stage_pwd, cred.
+      replace (w ++ scheme ++ s_sep ++ user ++ [58] ++ pwd ++ [64] ++ host ++ rest)
+        with ((w ++ scheme ++ s_sep ++ user ++ [58] ++ pwd) ++ [64] ++ host ++ rest)
+        by (rewrite <- !app_assoc; reflexivity).
+      rewrite span_app; [| |reflexivity].
+      + rewrite strip_prefix_app. apply cred_host_stage.
+      + destruct Hscheme as (_ & Hsc).
+        rewrite !forallb_app, Hf, Hp.
+        rewrite (forallb_impl is_schemec not_at scheme); [| |exact Hsc].
+        * rewrite (forallb_impl not_colon_at not_at user not_colon_at_not_at Hu'). reflexivity.
+        * intros c Hc. apply not_colon_at_not_at, schemec_not_colon_at, Hc.
+    - destruct (tail_ws_span not_at a w Hs Ht Hf) as [Hs' Ht'].
+      destruct (snd (span not_at w)) as [|v0 v] eqn:Ev; [destruct Ht'; congruence|].
+      pose proof (span_snd_head not_at w v0 v Ev) as Hv0.
+      unfold not_at in Hv0. apply negb_false_iff, Z.eqb_eq in Hv0. subst v0.
+      destruct (tail_ws_strip [64] a (64 :: v) v lit_at_nospace Hs' Ht') as [Hs2 Ht2]; [cbn; reflexivity|].
+      destruct (host_stage usr v Hs2 Ht2) as (m & Hok & Hm).
+      exists m. split; [exact Hok|]. intros user pwd _. unfold stage_pwd.
+      destruct (span_app_stop not_at w (cred scheme user pwd host rest) Hf) as [E _].
+      rewrite E, Ev. cbn [app strip_prefix]. rewrite Z.eqb_refl. apply Hm.
+  Qed.
+
+  Lemma user_stage y :
+    suffix a y -> tail_ws y ->
+    exists m, mres_ok a m /\ forall user pwd, valid user pwd ->
+      stage_user false sch (y ++ cred scheme user pwd host rest) = interp m (cred scheme user pwd host rest) rest.
+  Proof.
+    intros Hs Ht. destruct (forallb not_colon_at y) eqn:Hf.
+    - (* neither ':' nor '@' left: the user run swallows the credential's scheme, the password run its user and password *)
+      exists (MSpan (sch ++ s_sep ++ []) (64 :: host)). split; [exact I|].
+      intros user pwd (Hu & Hu' & Hp). unfold stage_user, cred.
+      replace (y ++ scheme ++ s_sep ++ user ++ [58] ++ pwd ++ [64] ++ host ++ rest)
+        with ((y ++ scheme) ++ s_sep ++ user ++ [58] ++ pwd ++ [64] ++ host ++ rest)
+        by (rewrite <- !app_assoc; reflexivity).
+      rewrite span_app; [| |reflexivity].
+      + destruct y as [|y0 y]; [destruct Ht; congruence|]. cbn [app].
+        unfold s_sep. cbn [app strip_prefix]. rewrite Z.eqb_refl.
+        unfold stage_pwd.
+        replace (47 :: 47 :: user ++ 58 :: pwd ++ 64 :: host ++ rest)
+          with (([47; 47] ++ user ++ [58] ++ pwd) ++ [64] ++ host ++ rest)
+          by (cbn [app]; rewrite <- !app_assoc; reflexivity).
+        rewrite span_app; [| |reflexivity].
+        * rewrite strip_prefix_app. apply cred_host_stage.
+        * rewrite !forallb_app, Hp. rewrite (forallb_impl not_colon_at not_at user not_colon_at_not_at Hu'). reflexivity.
+      + destruct Hscheme as (_ & Hsc). rewrite forallb_app, Hf.
+        apply (forallb_impl is_schemec not_colon_at scheme schemec_not_colon_at Hsc).
+    - destruct (tail_ws_span not_colon_at a y Hs Ht Hf) as [Hs' Ht'].
+      destruct (snd (span not_colon_at y)) as [|z0 z] eqn:Ez; [destruct Ht'; congruence|].
+      destruct (fst (span not_colon_at y)) as [|u0 u] eqn:Eu.
+      { exists MNone. split; [exact I|]. intros user pwd _. unfold stage_user.
+        destruct (span_app_stop not_colon_at y (cred scheme user pwd host rest) Hf) as [E _].
+        rewrite E, Eu. reflexivity. }
+      destruct (58 =? z0) eqn:E58.
+      + apply Z.eqb_eq in E58. subst z0.
+        destruct (tail_ws_strip [58] a (58 :: z) z lit_colon_nospace Hs' Ht') as [Hs2 Ht2]; [cbn; reflexivity|].
+        destruct (pwd_stage (u0 :: u) z Hs2 Ht2) as (m & Hok & Hm).
+        exists m. split; [exact Hok|]. intros user pwd Hv. unfold stage_user.
+        destruct (span_app_stop not_colon_at y (cred scheme user pwd host rest) Hf) as [E _].
+        rewrite E, Eu, Ez. cbn [app strip_prefix]. rewrite Z.eqb_refl. apply Hm. exact Hv.
+      + exists MNone. split; [exact I|]. intros user pwd _. unfold stage_user.
+        destruct (span_app_stop not_colon_at y (cred scheme user pwd host rest) Hf) as [E _].
+        rewrite E, Eu, Ez. cbn [app strip_prefix]. rewrite E58. reflexivity.
+  Qed.
+
+  Lemma sep_stage x :
+    suffix a x -> tail_ws x ->
+    exists m, mres_ok a m /\ forall user pwd, valid user pwd ->
+      stage_sep false sch (x ++ cred scheme user pwd host rest) = interp m (cred scheme user pwd host rest) rest.
+  Proof.
+    intros Hs Ht. destruct (strip_prefix s_sep x) as [y|] eqn:E.
+    - destruct (tail_ws_strip s_sep a x y lit_sep_nospace Hs Ht E) as [Hs2 Ht2].
+      destruct (user_stage y Hs2 Ht2) as (m & Hok & Hm).
+      exists m. split; [exact Hok|]. intros user pwd Hv. unfold stage_sep.
+      rewrite (strip_prefix_app_l _ _ _ _ E). apply Hm. exact Hv.
+    - exists MNone. split; [exact I|]. intros user pwd _. unfold stage_sep.
+      destruct Hscheme as ((c & t & -> & Hc) & _).
+      destruct (strip_prefix s_sep (x ++ cred (c :: t) user pwd host rest)) as [r|] eqn:E2; [|reflexivity].
+      exfalso. unfold cred in E2. cbn [app] in E2.
+      assert (H : is_some (strip_prefix s_sep x) = true).
+      { eapply strip_sep_straddle; [apply Ht|exact Hc|rewrite E2; reflexivity]. }
+      rewrite E in H. discriminate.
+  Qed.
+End After.
+
+Lemma match_pre c p scheme host rest :
+  is_alpha c = true -> tail_ws p -> scheme_ok scheme ->
+  host <> [] /\ forallb is_hostc host = true /\ stops is_hostc rest ->
+  exists m, mres_ok p m /\ forall user pwd, valid user pwd ->
+    match_at false (c :: p ++ cred scheme user pwd host rest) = interp m (cred scheme user pwd host rest) rest.
+Proof.
+  intros Hc Ht Hsch Hh.
+  assert (Hf : forallb is_schemec p = false)
+    by (apply forallb_last_false; [apply Ht|apply space_not_schemec, Ht]).
+  destruct (tail_ws_span is_schemec p p (ex_intro _ [] eq_refl) Ht Hf) as [Hs' Ht'].
+  destruct (sep_stage p (c :: fst (span is_schemec p)) scheme host rest Hsch Hh _ Hs' Ht') as (m & Hok & Hm).
+  exists m. split; [exact Hok|]. intros user pwd Hv.
+  rewrite (match_at_stages false c _ Hc).
+  destruct (span_app_stop is_schemec p (cred scheme user pwd host rest) Hf) as [E _].
+  rewrite E. cbn [fst snd]. apply Hm. exact Hv.
+Qed.
+
+Definition ends_blank (pre : str) : Prop := pre = [] \/ is_space (last pre 0) = true.
+
+Lemma sub_after_blank scheme user pwd user' pwd' host rest :
+  cred_ok scheme user pwd host rest -> cred_ok scheme user' pwd' host rest ->
+  forall p skip prev,
+    (skip <= length p)%nat ->
+    (p = [] -> is_word prev = false) -> (p <> [] -> is_space (last p 0) = true) ->
+    sub false skip prev (p ++ cred scheme user pwd host rest) =
+    sub false skip prev (p ++ cred scheme user' pwd' host rest).
+Proof.
+  intros Hok Hok'.
+  pose proof Hok as (Hsch & Hu & Hu' & Hp & Hh).
+  pose proof Hok' as (_ & Hv & Hv' & Hq & _).
+  assert (V : valid user pwd) by (repeat split; assumption).
+  assert (V' : valid user' pwd') by (repeat split; assumption).
+  induction p as [|c p IH]; intros skip prev Hsk Hnil Hlast.
+  - assert (skip = 0)%nat by (cbn in Hsk; lia). subst skip. cbn [app].
+    rewrite !sub_cred by (auto). reflexivity.
+  - assert (IHc : forall k, (k <= length p)%nat ->
+              sub false k c (p ++ cred scheme user pwd host rest) = sub false k c (p ++ cred scheme user' pwd' host rest)).
+    { intros k Hk. apply IH; [exact Hk| |].
+      - intros ->. apply space_not_word. apply (Hlast ltac:(discriminate)).
+      - intro Hne. specialize (Hlast ltac:(discriminate)). rewrite last_cons in Hlast.
+        rewrite (last_indep p c 0 Hne) in Hlast. exact Hlast. }
+    cbn [app]. destruct skip as [|k].
+    + (* a match attempt at c *)
+      destruct (word_boundary prev c) eqn:Hbd.
+      2:{ rewrite !sub_no_match by (rewrite Hbd; reflexivity). f_equal. apply IHc. lia. }
+      destruct (is_alpha c) eqn:Hal.
+      2:{ rewrite !sub_no_match by (rewrite Hbd; apply match_at_not_alpha; exact Hal). f_equal. apply IHc. lia. }
+      assert (Ht : tail_ws p).
+      { destruct p as [|b p].
+        - exfalso. specialize (Hlast ltac:(discriminate)). cbn in Hlast. apply space_not_alpha in Hlast. congruence.
+        - split; [discriminate|]. specialize (Hlast ltac:(discriminate)). rewrite last_cons in Hlast.
+          rewrite (last_indep (b :: p) c 0) in Hlast by discriminate. exact Hlast. }
+      destruct (match_pre c p scheme host rest Hal Ht Hsch Hh) as (m & Hok_m & Hm).
+      pose proof (Hm user pwd V) as M1. pose proof (Hm user' pwd' V') as M2.
+      destruct m as [|g1 g2 r|g1 g2]; cbn [interp] in M1, M2.
+      * rewrite !sub_no_match by (rewrite Hbd; assumption). f_equal. apply IHc. lia.
+      * destruct Hok_m as [mm ->].
+        cbn [sub]. rewrite Hbd, M1, M2.
+        rewrite <- !app_assoc.
+        replace (length (mm ++ r ++ cred scheme user pwd host rest) - length (r ++ cred scheme user pwd host rest))%nat
+          with (length mm) by (rewrite !app_length; lia).
+        replace (length (mm ++ r ++ cred scheme user' pwd' host rest) - length (r ++ cred scheme user' pwd' host rest))%nat
+          with (length mm) by (rewrite !app_length; lia).
+        do 3 f_equal.
+        pose proof (IHc (length mm)) as G. rewrite <- !app_assoc in G. apply G. rewrite app_length. lia.
+      * destruct Hh as (Hhn & _).
+        assert (R : forall u w, p ++ cred scheme u w host rest
+                    = (p ++ scheme ++ s_sep ++ u ++ [58] ++ w ++ [64] ++ host) ++ rest)
+          by (intros; unfold cred; rewrite <- !app_assoc; reflexivity).
+        rewrite !R in *.
+        rewrite (sub_match false prev c _ rest _ _ Hbd M1), (sub_match false prev c _ rest _ _ Hbd M2).
+        do 3 f_equal.
+        assert (L : forall u w, last (p ++ scheme ++ s_sep ++ u ++ [58] ++ w ++ [64] ++ host) c = last host c).
+        { intros. rewrite !app_assoc. apply last_app_ne. exact Hhn. }
+        rewrite !L. reflexivity.
+    + cbn [sub]. apply IHc. cbn in Hsk. lia.
+Qed.
+
+Lemma hide_after_blank pre scheme user pwd user' pwd' host rest :
+  ends_blank pre -> cred_ok scheme user pwd host rest -> cred_ok scheme user' pwd' host rest ->
+  hide_uri_users_and_pwds (pre ++ scheme ++ s_sep ++ user ++ [58] ++ pwd ++ [64] ++ host ++ rest) =
+  hide_uri_users_and_pwds (pre ++ scheme ++ s_sep ++ user' ++ [58] ++ pwd' ++ [64] ++ host ++ rest).
+Proof.
+  intros Hb H1 H2. unfold hide_uri_users_and_pwds.
+  apply (sub_after_blank scheme user pwd user' pwd' host rest H1 H2 pre 0 (-1)); [lia| |].
+  - intros _. vm_compute. reflexivity.
+  - intro Hne. destruct Hb as [->|Hb]; [congruence|exact Hb].
+Qed.
+
+(* a list "rtsp://u1:p1@h1/a, http://example.com/b, rtsp://u2:p2@h2" *)
+Definition l_pre : str :=
+  [114;116;115;112;58;47;47;117;49;58;112;49;64;104;49;47;97;44;32;
+   104;116;116;112;58;47;47;101;120;97;109;112;108;101;46;99;111;109;47;98;44;32].
+Lemma instance_list : ends_blank l_pre /\
+  hide_uri_users_and_pwds (l_pre ++ i_scheme ++ s_sep ++ i_user ++ [58] ++ i_pwd ++ [64] ++ i_host ++ i_rest)
+  = [114;116;115;112;58;47;47;42;42;42;42;64;104;49;47;97;44;32;104;116;116;112;58;47;47;42;42;42;42;64]
+    ++ i_host ++ i_rest.
+Proof. split; [right; vm_compute; reflexivity|vm_compute; reflexivity]. Qed.
